@@ -59,6 +59,10 @@ struct mtree {
     struct tord *ord;
 };
 static struct tord tords[4];
+/* what the library is given: one of two comparison functions that order the opposite way, and a private pointer whose direction
+ * times the function's sign is the tree's direction (tords, the model's). Function and pointer belong to the tree object and
+ * both move with swap; exchanging only one of them turns the order round. */
+static struct tord tpriv[4]; static int tfs[4];
 
 static struct cstl_bintree bt[2];
 static struct cstl_rbtree rb[2];
@@ -147,6 +151,9 @@ static int cmp_key(const void *a, const void *b, void *p)
     }
     return sim_cmp((to ? to->dir : 1) * ((x->key > y->key) - (x->key < y->key)));
 }
+
+static int cmp_key_rev(const void *a, const void *b, void *p) { return cmp_key(b, a, p); }
+#define TFN(i) (tfs[i] > 0 ? cmp_key : cmp_key_rev)
 
 /* erased elements are the caller's again: some are kept (their node members scribbled on) and inserted again later -
  * the same object, the same address */
@@ -510,8 +517,8 @@ static size_t deep_mids;
 static int deep_visit(const void *e, cstl_bintree_visit_order_t ord, void *p) { (void)e; (void)p; if (ord == CSTL_BINTREE_VISIT_ORDER_MID || ord == CSTL_BINTREE_VISIT_ORDER_LEAF) deep_mids++; return 0; }
 static void deep_tree(uint64_t sel, uint64_t seed)
 {
-    static const int depths[] = { 4100, 8200, 9000, 16400, 20000, 30000, 5000, 12000 };
-    int D = depths[sel % 8], right = (int)(sel >> 8 & 1), d, maxteeth = D / 16 + 400, nt = 0, prevkey; size_t n = 0, cnt, np = (size_t)D + (size_t)maxteeth * 6 + 8;
+    static const int depths[] = { 4100, 8200, 9000, 16400, 20000, 30000, 40000, 66000 };       /* (the pinned library recurses: about 100 000 levels fit an 8 MiB stack) */
+    int D = depths[sel % 8], right = (int)(sel >> 8 & 1), dense = (int)(sel >> 10 & 3), d, maxteeth = dense ? D + 8 : D / 16 + 400, nt = 0, prevkey, d0, d1; size_t n = 0, cnt, np = (size_t)D + (size_t)maxteeth * 6 + 8;
     uint64_t x = seed;
     static struct cstl_bintree dt; static size_t hmin, hmax;
     struct telem *pool = malloc(np * sizeof *pool), *prev = NULL;
@@ -523,18 +530,21 @@ static void deep_tree(uint64_t sel, uint64_t seed)
     cstl_bintree_init(&dt, cmp_plain, NULL, offsetof(struct telem, bn));
 #define DEEP_ADD(k, hint) do { struct telem *e_ = &pool[n]; e_->magic = MAGIC; e_->tail = ~MAGIC; e_->id = (int)n; e_->mark = 0; e_->tree = 9; e_->key = (k); \
         g_inlib = 1; cstl_bintree_insert(&dt, e_, (hint)); g_inlib = 0; n++; } while (0)
+    d0 = (int)(splitmix64(&x) % (uint64_t)(D - 3100)); d1 = d0 + 600 + (int)(splitmix64(&x) % 2400);
     for (d = 0; d < D; d++) {
         /* chain keys 32 apart; the teeth of level d get keys strictly between the chain keys of levels d-1 and d */
         int k = right ? 64 + 32 * d : 64 + 32 * (D - d);
         DEEP_ADD(k, prev);
         prev = &pool[n - 1];
-        if (d > 0 && nt < maxteeth && (splitmix64(&x) % 64 == 0 || (d >= D - 24 && splitmix64(&x) % 2 == 0))) {
-            int q, m = 1 + (int)(splitmix64(&x) % 6); unsigned used = 0;
+        /* teeth: sparse all the way and dense at the bottom (0); on every level of one stretch of 600 ... 3000 levels (1, 3); on every level (2) */
+        if (d > 0 && nt < maxteeth && (splitmix64(&x) % (uint64_t)(D / 150 + 1) == 0 || (d >= D - 24 && splitmix64(&x) % 2 == 0) || dense == 2 || (dense && d >= d0 && d < d1))) {
+            int indense = dense == 2 || (dense && d >= d0 && d < d1);
+            int q, m = indense ? 1 : 1 + (int)(splitmix64(&x) % 6); unsigned used = 0;
             for (q = 0; q < m; q++) {
                 int off = 1 + (int)(splitmix64(&x) % 31);
                 if (used >> off & 1) continue;      /* distinct keys: the shape of the tooth is what the insertion order makes it */
                 used |= 1u << off;
-                DEEP_ADD(right ? k - off : k + off, NULL);
+                DEEP_ADD(right ? k - off : k + off, indense ? prev : NULL);       /* (a single tooth hangs directly off the chain node: that node is its hint) */
             }
             nt++;
         }
@@ -557,8 +567,10 @@ static void deep_tree(uint64_t sel, uint64_t seed)
     { static int r2; TRY(r2 = cstl_bintree_foreach(&dt, deep_visit, NULL, (sel >> 9 & 1) ? CSTL_BINTREE_FOREACH_DIR_REV : CSTL_BINTREE_FOREACH_DIR_FWD)); (void)r2; }
     if (g_aborted) VIOLP("C01", "abort", "foreach over a deep tree aborted");
     if (deep_mids != n) VIOLP("C01", "foreach_exactly_once", "foreach over a tree %d levels deep met %zu elements, %zu are held", D, deep_mids, n);
-    TRY(cstl_bintree_height(&dt, &hmin, &hmax));
-    if (hmax < (size_t)D || hmax > (size_t)D + 8) VIOLP("C01", "height_api", "deep tree: cstl_bintree_height says %zu, the chain alone is %d levels", hmax, D);
+    if ((uint64_t)nt * (uint64_t)D < 40000000) {     /* (the library measures height by walking up from every leaf: leaves x depth steps) */
+        TRY(cstl_bintree_height(&dt, &hmin, &hmax));
+        if (hmax < (size_t)D || hmax > (size_t)D + 8) VIOLP("C01", "height_api", "deep tree: cstl_bintree_height says %zu, the chain alone is %d levels", hmax, D);
+    }
     g_cur_prop = "C15"; g_cur_ctx = right ? "deep-tree-clear-right-chain" : "deep-tree-clear-left-chain";
     huge_cleared = 0; huge_np = n;
     TRY(cstl_bintree_clear(&dt, huge_clear_cb, NULL));
@@ -691,6 +703,9 @@ static void t_exec(const plan_t *p)
 
     simheap_reset(&hc, p->cfg[CF_JUNK]);
     simheap_far((int)p->cfg[CF_FAR]);
+    /* (mode 3: the node member of tree 0 - binary - or of tree 2 - red-black -, by the parity of the junk byte) */
+    simheap_far_nodeoff((p->cfg[CF_JUNK] & 1) ? ((p->cfg[CF_STREAM] >> 14 & 1) ? offsetof(struct telem, rn2) : offsetof(struct telem, rn)) + offsetof(struct cstl_rbtree_node, n)
+                                              : ((p->cfg[CF_STREAM] >> 12 & 1) ? offsetof(struct telem, bn2) : offsetof(struct telem, bn)));
     nb = (int)p->cfg[CF_NB]; nr = (int)p->cfg[CF_NR];
     if (nb > 2) nb = 2; if (nr > 2) nr = 2; if (nb + nr == 0) nr = 1;
     nenabled = 0;
@@ -711,24 +726,28 @@ static void t_exec(const plan_t *p)
     case 3: g_hnd = (size_t)0 - (((size_t)1 << 31) + 24); PROBE("handles_2^31_before_the_node_members"); break;
     case 4: g_hnd = (size_t)0 - (((size_t)1 << 32) + 24); PROBE("handles_2^32_before_the_node_members"); break;
     }
-    for (i = 0; i < NT; i++) { tords[i].dir = (p->cfg[CF_STREAM] >> (20 + i) & 1) ? -1 : 1; mt[i].ord = &tords[i]; }
+    for (i = 0; i < NT; i++) {
+        tords[i].dir = (p->cfg[CF_STREAM] >> (20 + i) & 1) ? -1 : 1; mt[i].ord = &tords[i];
+        tfs[i] = (p->cfg[CF_STREAM] >> (28 + i) & 1) ? -1 : 1; tpriv[i].dir = tords[i].dir * tfs[i];
+        if (tfs[i] < 0) PROBE("tree_with_the_other_comparison_function");
+    }
     if (p->cfg[CF_DECL] && g_hnd == 0) {
         /* the documented other way to get an empty tree: the initializer macros, with expressions as arguments */
         int one = 1 + (int)(p->cfg[CF_JUNK] & 0), three = one + 2;
-        if (tkind[0]) { DECLARE_CSTL_BINTREE(t, struct telem, bn2, one ? cmp_key : &cmp_plain, tords + 0); bt[0] = t; }
-        else bt[0] = (struct cstl_bintree)CSTL_BINTREE_INITIALIZER(struct telem, bn, cmp_key, tords + (one - 1));
-        if (tkind[1]) bt[1] = (struct cstl_bintree)CSTL_BINTREE_INITIALIZER(struct telem, bn2, cmp_key, tords + one);
-        else { DECLARE_CSTL_BINTREE(t, struct telem, bn, cmp_key, tords + one); bt[1] = t; }
-        if (tkind[2]) { DECLARE_CSTL_RBTREE(t, struct telem, rn2, cmp_key, tords + three - 1); rb[0] = t; }
-        else rb[0] = (struct cstl_rbtree)CSTL_RBTREE_INITIALIZER(struct telem, rn, one ? cmp_key : &cmp_plain, tords + 2);
-        if (tkind[3]) rb[1] = (struct cstl_rbtree)CSTL_RBTREE_INITIALIZER(struct telem, rn2, cmp_key, tords + three);
-        else { DECLARE_CSTL_RBTREE(t, struct telem, rn, cmp_key, tords + three); rb[1] = t; }
+        if (tkind[0]) { DECLARE_CSTL_BINTREE(t, struct telem, bn2, one ? TFN(0) : &cmp_plain, tpriv + 0); bt[0] = t; }
+        else bt[0] = (struct cstl_bintree)CSTL_BINTREE_INITIALIZER(struct telem, bn, TFN(0), tpriv + (one - 1));
+        if (tkind[1]) bt[1] = (struct cstl_bintree)CSTL_BINTREE_INITIALIZER(struct telem, bn2, TFN(1), tpriv + one);
+        else { DECLARE_CSTL_BINTREE(t, struct telem, bn, TFN(1), tpriv + one); bt[1] = t; }
+        if (tkind[2]) { DECLARE_CSTL_RBTREE(t, struct telem, rn2, TFN(2), tpriv + three - 1); rb[0] = t; }
+        else rb[0] = (struct cstl_rbtree)CSTL_RBTREE_INITIALIZER(struct telem, rn, one ? TFN(2) : &cmp_plain, tpriv + 2);
+        if (tkind[3]) rb[1] = (struct cstl_rbtree)CSTL_RBTREE_INITIALIZER(struct telem, rn2, TFN(3), tpriv + three);
+        else { DECLARE_CSTL_RBTREE(t, struct telem, rn, TFN(3), tpriv + three); rb[1] = t; }
         PROBE("from_initializer_macro");
     } else {
-    cstl_bintree_init(&bt[0], cmp_key, &tords[0], node_off(0) - g_hnd);
-    cstl_bintree_init(&bt[1], cmp_key, &tords[1], node_off(1) - g_hnd);
-    cstl_rbtree_init(&rb[0], cmp_key, &tords[2], rbmember_off(2) - g_hnd);
-    cstl_rbtree_init(&rb[1], cmp_key, &tords[3], rbmember_off(3) - g_hnd);
+    cstl_bintree_init(&bt[0], TFN(0), &tpriv[0], node_off(0) - g_hnd);
+    cstl_bintree_init(&bt[1], TFN(1), &tpriv[1], node_off(1) - g_hnd);
+    cstl_rbtree_init(&rb[0], TFN(2), &tpriv[2], rbmember_off(2) - g_hnd);
+    cstl_rbtree_init(&rb[1], TFN(3), &tpriv[3], rbmember_off(3) - g_hnd);
     }
     probe.magic = MAGIC; probe.tail = ~MAGIC; probe.id = -1; probe.tree = -1;
     reentrant = 0;
@@ -1021,7 +1040,7 @@ static void t_gen(prng_t *r, int mode, plan_t *p)
         /* very deep plain trees: the run index walks depth x direction x traversal direction */
         op_t *o = plan_add(p, T_DEEP);
         p->cfg[CF_NB] = 1; p->cfg[CF_NR] = 0; p->cfg[CF_KEYS] = 2; p->cfg[CF_JUNK] = 1 + prng_below(r, 254); p->cfg[CF_MAXN] = 8;
-        o->a[1] = (g_gen_index % 8) | (g_gen_index / 8 % 4) << 8; o->a[2] = prng_next(r);
+        o->a[1] = (g_gen_index % 8) | (g_gen_index / 8 % 4) << 8 | (g_gen_index / 32 % 4) << 10; o->a[2] = prng_next(r);
         return;
     }
     if (mode == 102) {
@@ -1064,7 +1083,7 @@ static void t_gen(prng_t *r, int mode, plan_t *p)
     p->cfg[CF_MAXN] = longrun ? 100 + prng_below(r, 400) : small ? 2 + prng_below(r, 6) : 6 + prng_below(r, 58);
     p->cfg[CF_CLEARFREES] = mode == 15 ? 1 : prng_below(r, 2);
     stream = (int)prng_below(r, 6);      /* 0,1: random; 2 ascending; 3 descending; 4 zig-zag; 5 few values */
-    p->cfg[CF_STREAM] = (uint64_t)stream | (prng_chance(r, 1, 6) ? 256 : 0) | (prng_chance(r, 1, 3) ? prng_below(r, 16) << 12 : 0) | (prng_chance(r, 1, 3) ? prng_below(r, 8) << 16 : 0) | (prng_chance(r, 1, 2) ? prng_below(r, 16) << 20 : 0);
+    p->cfg[CF_STREAM] = (uint64_t)stream | (prng_chance(r, 1, 6) ? 256 : 0) | (prng_chance(r, 1, 3) ? prng_below(r, 16) << 12 : 0) | (prng_chance(r, 1, 3) ? prng_below(r, 8) << 16 : 0) | (prng_chance(r, 1, 2) ? prng_below(r, 16) << 20 : 0) | (uint64_t)((g_gen_index / 5) & 15) << 28;      /* bits 28-31: which comparison function each tree gets */
     if (stream == 5) p->cfg[CF_KEYS] = 1 + prng_below(r, 3);
     nops = longrun ? 300 + (int)prng_below(r, 1700) : small ? 2 + (int)prng_below(r, 7) : 10 + (int)prng_below(r, 70);
 
